@@ -64,6 +64,17 @@ pub struct SyncCfg {
 	/// with mainnet's parameters - only for such tips; otherwise body sync asks for the state again
 	/// as soon as it has it
 	pub serve_height: u64,
+	/// world id of the tip the serving node holds at first (None: the winner, cut at `serve_height`)
+	pub serve_tip: Option<usize>,
+	/// the serving node reorganises onto this tip - a heavier branch that leaves the first one *below
+	/// the archive header* - while the receiver is in the middle of its PIBD (segments of the first
+	/// archive state already applied). The receiver's header chain follows (after a restart its header
+	/// sync asks the peer again; or the peer announces the new branch header by header), the archive
+	/// header changes under the half assembled state, and the PIBD round has to fail and start over.
+	pub alt_tip: Option<usize>,
+	/// 0: the receiver is restarted right after the reorganisation; 1: the peer announces the headers
+	/// of the new branch one by one (`Header` messages, as it would while that branch grows)
+	pub alt_mode: u32,
 }
 
 pub struct SyncOutcome {
@@ -158,22 +169,27 @@ pub fn sync_loop_run(world: &World, seed: u64, tag: &str, cfg: &SyncCfg) -> Sync
 		replay: Value::Null,
 	};
 	let debug = std::env::var("VERIF_DEBUG").is_ok();
-	let winner = world.winner();
+	let winner = cfg.serve_tip.unwrap_or_else(|| world.winner());
 	let mut path: Vec<usize> = world.path_to(winner);
 	if cfg.serve_height > 0 {
 		path.retain(|i| world.blocks[*i].height <= cfg.serve_height);
 	}
-	let winner = *path.last().unwrap_or(&winner);
-	let (wtd, wh) = (world.blocks[winner].total_difficulty, world.blocks[winner].height);
+	let mut winner = *path.last().unwrap_or(&winner);
+	let (mut wtd, mut wh) = (world.blocks[winner].total_difficulty, world.blocks[winner].height);
+	// the branch the serving node reorganises onto in the middle of the receiver's PIBD
+	let alt_path: Vec<usize> = cfg.alt_tip.map(|t| world.path_to(t)).unwrap_or_default();
 
-	// reference digests per height (a node that processed every block up to there)
-	let mut ref_digest: BTreeMap<u64, StateDigest> = BTreeMap::new();
-	{
-		let mut reference = crate::node::Node::create(&format!("{}-ref", tag), world.genesis.clone());
-		if let Ok(d) = reference.digest() {
-			ref_digest.insert(0, d);
+	// reference digests per block (a node that processed every block up to there)
+	let mut ref_digest: BTreeMap<grin_core::core::hash::Hash, StateDigest> = BTreeMap::new();
+	for (n, pth) in [&path, &alt_path].iter().enumerate() {
+		if pth.is_empty() {
+			continue;
 		}
-		for id in &path {
+		let mut reference = crate::node::Node::create(&format!("{}-ref{}", tag, n), world.genesis.clone());
+		if let Ok(d) = reference.digest() {
+			ref_digest.insert(world.genesis.hash(), d);
+		}
+		for id in pth.iter() {
 			if *id == 0 {
 				continue;
 			}
@@ -183,12 +199,12 @@ pub fn sync_loop_run(world: &World, seed: u64, tag: &str, cfg: &SyncCfg) -> Sync
 				return out;
 			}
 			if let Ok(d) = reference.digest() {
-				ref_digest.insert(world.blocks[*id].height, d);
+				ref_digest.insert(world.blocks[*id].hash, d);
 			}
 		}
 		reference.destroy();
 	}
-	let mut on_path: BTreeMap<grin_core::core::hash::Hash, u64> = path.iter().map(|i| (world.blocks[*i].hash, world.blocks[*i].height)).collect();
+	let mut on_path: BTreeMap<grin_core::core::hash::Hash, u64> = path.iter().chain(alt_path.iter()).map(|i| (world.blocks[*i].hash, world.blocks[*i].height)).collect();
 	on_path.insert(world.genesis.hash(), 0);
 	// blocks the receiver starts with on a branch the serving chain outweighs: no reference digest
 	let mut pre_only: BTreeSet<grin_core::core::hash::Hash> = BTreeSet::new();
@@ -275,8 +291,14 @@ pub fn sync_loop_run(world: &World, seed: u64, tag: &str, cfg: &SyncCfg) -> Sync
 		// frames on their way S -> R: (due tick, description, frame, attachment, corrupted)
 		let mut wire: Vec<(u64, String, Vec<u8>, Vec<u8>, bool)> = vec![];
 		let mut corrupt_delivered = 0u64;
-		let max_ticks = cfg.fault_ticks + 700;
+		let mut max_ticks = cfg.fault_ticks + 700;
 		let mut tick = 0u64;
+		// the served chain reorganises below the archive header once this many segment answers reached R
+		let switch_after = rng.fork("alt").range(1, 3);
+		let mut segments_delivered = 0u64;
+		let mut switched = false;
+		let mut force_restart = false;
+		let mut announce_next: Option<usize> = None;
 		let mut idle = 0u64;
 		let mut restarts_left = cfg.restarts;
 		let mut stall_until = 0u64;
@@ -288,6 +310,7 @@ pub fn sync_loop_run(world: &World, seed: u64, tag: &str, cfg: &SyncCfg) -> Sync
 		let mut nosync_behind = 0u64;
 		let mut redundant_injected = false;
 		let mut after_redundant = 0u64;
+		let mut after_switch = 0u64;
 		while tick < max_ticks {
 			tick += 1;
 			let faults_on = cfg.faulty && tick <= cfg.fault_ticks;
@@ -319,8 +342,9 @@ pub fn sync_loop_run(world: &World, seed: u64, tag: &str, cfg: &SyncCfg) -> Sync
 			}
 			simclock::advance(dt);
 			// 3. clean restart of R (stop the loop, close everything, open the same directory again)
-			if faults_on && restarts_left > 0 && rng.chance(3, 100) {
-				restarts_left -= 1;
+			if force_restart || (faults_on && restarts_left > 0 && rng.chance(3, 100)) {
+				restarts_left = restarts_left.saturating_sub(1);
+				force_restart = false;
 				bump!(out.faults, "receiver_restart");
 				out.log.push(format!("t{} restart of the receiver", tick));
 				if let Some(t) = thread.as_mut() {
@@ -439,6 +463,16 @@ pub fn sync_loop_run(world: &World, seed: u64, tag: &str, cfg: &SyncCfg) -> Sync
 					Message::GetBlock(h) => {
 						bump!(out.probes, "sync_get_block");
 						sp_s[0].send(Type::GetBlock, h)
+					}
+					// (after the served chain reorganised the peer announces 30 headers of the new branch one
+					// by one; the compact blocks the receiver asks for in return stay unanswered: delivered,
+					// they would sit in its orphan pool, the one right above the new archive header for good -
+					// nothing ever calls check_orphans for the height after a state sync's last block, and body
+					// sync does not ask for blocks that are orphans. Observation in DESIGN 9.4; needs blocks
+					// gossiped right above the archive header, two days below the tip on mainnet.)
+					Message::GetCompactBlock(_) if switched => {
+						bump!(out.faults, "compact_block_request_unanswered");
+						continue;
 					}
 					Message::GetCompactBlock(h) => sp_s[0].send(Type::GetCompactBlock, h),
 					Message::GetOutputBitmapSegment(q) => {
@@ -591,6 +625,8 @@ pub fn sync_loop_run(world: &World, seed: u64, tag: &str, cfg: &SyncCfg) -> Sync
 				moved = true;
 				if corrupted {
 					corrupt_delivered += 1;
+				} else if name.contains("Segment") {
+					segments_delivered += 1;
 				}
 				if debug {
 					eprintln!("   t{} -> R {}{} ({} bytes{})", tick, name, if corrupted { " corrupted" } else { "" }, frame.len(), if att.is_empty() { String::new() } else { format!(" + {} attachment", att.len()) });
@@ -656,7 +692,7 @@ pub fn sync_loop_run(world: &World, seed: u64, tag: &str, cfg: &SyncCfg) -> Sync
 						}
 						// whenever the head moved the state is the one a block-by-block node has there; while
 						// segments are being assembled the head does not move
-						if let Some(rd) = ref_digest.get(h) {
+						if let Some(rd) = ref_digest.get(&d.head) {
 							if !d.same_body(rd) {
 								result = Some(v("state-differs-at-head", format!("tick {} ({}): receiver at {} but a node that processed every block to that height is at {}", tick, sname, d.short(), rd.short())));
 								break 'run;
@@ -666,6 +702,62 @@ pub fn sync_loop_run(world: &World, seed: u64, tag: &str, cfg: &SyncCfg) -> Sync
 							bump!(out.probes, "head_moved_after_state_sync_started");
 						}
 					}
+				}
+			}
+			// the serving node reorganises onto a heavier branch that leaves its chain below the archive
+			// header; what R has assembled so far belongs to a state its header chain is about to abandon
+			if cfg.alt_tip.is_some() && !switched && matches!(status, SyncStatus::TxHashsetPibd { .. }) && segments_delivered >= switch_after {
+				switched = true;
+				bump!(out.faults, "served_chain_reorganised_below_archive_header");
+				let first_new = alt_path.iter().position(|i| *i != 0 && !path.contains(i)).unwrap_or(alt_path.len());
+				for id in alt_path[first_new..].iter() {
+					if let Err(e) = server.chain.process_block(world.blocks[*id].block.clone(), world.opts) {
+						result = Some(v("harness-server-block", format!("serving node refused honest block #{} of the heavier branch: {:?}", id, e)));
+						break 'run;
+					}
+				}
+				server.take_events();
+				let new_tip = *alt_path.last().unwrap();
+				if server.chain.head().map(|h| h.last_block_h).ok() != Some(world.blocks[new_tip].hash) {
+					result = Some(v("harness-server-reorg", "the serving node did not reorganise onto the heavier branch".into()));
+					break 'run;
+				}
+				// what S broadcast to its peer while it reorganised is not an answer to anything
+				let _ = barrier(&mut sp_s[0..1], Some(0));
+				sp_s[0].inbox.clear();
+				winner = new_tip;
+				wtd = world.blocks[new_tip].total_difficulty;
+				wh = world.blocks[new_tip].height;
+				path = alt_path.clone();
+				if let Some(p) = sp_r.get_mut(0) {
+					p.claimed_td = wtd;
+					p.claimed_height = wh;
+				}
+				max_ticks = tick + cfg.fault_ticks + 900;
+				out.log.push(format!("t{} the serving node reorganised onto the heavier branch (fork below h{}, new tip h{}); {} segments had reached the receiver", tick, world.blocks[alt_path[first_new]].height, wh, segments_delivered));
+				if cfg.alt_mode == 0 {
+					force_restart = true;
+				} else {
+					announce_next = Some(first_new);
+				}
+			}
+			// ... and announces the new branch header by header, as a peer does while a branch grows
+			if let Some(n) = announce_next {
+				if !sp_r.is_empty() && sp_r[0].alive {
+					let upto = (n + 3).min(alt_path.len());
+					for id in alt_path[n..upto].iter() {
+						sp_r[0].send(Type::Header, world.blocks[*id].block.header.clone());
+						if let Err(e) = barrier(&mut sp_r[0..1], Some(0)) {
+							result = Some(v("connection-stuck", format!("receiver, after an announced header at tick {}: {}", tick, e)));
+							break 'run;
+						}
+						bump!(out.probes, "headers_of_heavier_branch_announced");
+					}
+					if let Some(p) = take_panics().first() {
+						result = Some(v("node-thread-panicked", p.clone()));
+						break 'run;
+					}
+					announce_next = if upto < alt_path.len() { Some(upto) } else { None };
 				}
 			}
 			// a node that fell out of sync mode close to the tip (its peer went away for a moment, or the
@@ -696,13 +788,35 @@ pub fn sync_loop_run(world: &World, seed: u64, tag: &str, cfg: &SyncCfg) -> Sync
 					break;
 				}
 			}
+			if switched {
+				after_switch += 1;
+				if after_switch > 260 + cfg.fault_ticks {
+					break;
+				}
+			}
 			// 9. done?
-			if matches!(status, SyncStatus::NoSync) && d.head_height == wh && tick > 6 {
-				done = true;
+			if matches!(status, SyncStatus::NoSync) && d.head == world.blocks[winner].hash && tick > 6 {
+				done = cfg.alt_tip.is_none() || switched;
 				break;
 			}
 		}
 		out.ticks = tick;
+		if cfg.alt_tip.is_some() && !switched {
+			// the sync finished before the reorganisation could happen (too few segments in this world)
+			bump!(out.probes, "reorg_run_finished_before_switch");
+			break 'run;
+		}
+		if switched && done {
+			bump!(out.probes, "sync_completed_after_archive_header_moved");
+		}
+		if switched && !done {
+			// On the unchanged tree the loop never gets over a half assembled state that belongs to another
+			// archive header: the new desegmenter asks for the segment its local MMR sizes point at, gets
+			// it, cannot apply it, and asks again - no `errored` round, no reset (DESIGN 9.4). Nothing is
+			// finalised, which is all C16 states; these runs are judged for safety only.
+			bump!(out.probes, "sync_stalled_after_archive_header_moved");
+			break 'run;
+		}
 		if !done && redundant_injected {
 			bump!(out.probes, "sync_never_completed_after_redundant_hash_segment");
 			break 'run;
@@ -773,6 +887,65 @@ pub fn sync_loop_run(world: &World, seed: u64, tag: &str, cfg: &SyncCfg) -> Sync
 	out
 }
 
+/// The served chain simply grows past the next archive interval while the receiver is in the middle
+/// of its PIBD: (tip served first = `serve_height - 10`, tip served later = `serve_height`), both on
+/// the trunk. After a restart the receiver's header sync moves its header head, and with it the
+/// archive header, ten blocks up - over a half assembled state of the *same* chain. (On mainnet: a
+/// node restarted the day after it began its state sync.)
+pub fn grow_tips(world: &World, serve_height: u64) -> Option<(usize, usize)> {
+	if serve_height < 40 {
+		return None;
+	}
+	let trunk = world.path_to(world.winner());
+	let at = |h: u64| trunk.iter().cloned().find(|i| world.blocks[*i].height == h);
+	Some((at(serve_height - 10)?, at(serve_height)?))
+}
+
+/// Grow a second branch on a single-chain world: it leaves the trunk a few blocks *below* the archive
+/// header of a node that serves the trunk up to `serve_height`, and reaches that height (or ten blocks
+/// more) with more work - its miner's clock runs fast, 1-3 s per block, so its difficulty climbs.
+/// Returns (tip of the trunk at `serve_height`, tip of the heavier branch).
+pub fn add_reorg_branch(world: &mut World, serve_height: u64, rng: &mut SimRng) -> Result<Option<(usize, usize)>, String> {
+	if serve_height < 40 {
+		return Ok(None);
+	}
+	let trunk = world.path_to(world.winner());
+	let at = |w: &World, h: u64| trunk.iter().cloned().find(|i| w.blocks[*i].height == h);
+	let tip_a = match at(world, serve_height) {
+		Some(t) => t,
+		None => return Ok(None),
+	};
+	let fork_h = serve_height - 20 - rng.range(1, 5);
+	let mut tip = match at(world, fork_h) {
+		Some(t) => t,
+		None => return Ok(None),
+	};
+	let mut target = serve_height;
+	for _ in 0..2 {
+		while world.blocks[tip].height < target {
+			let height = world.blocks[tip].height + 1;
+			let (txs, note) = if world.blocks[tip].ledger.len() < 60 && rng.chance(1, 2) { world.draw_txs(tip, height) } else { (vec![], "empty".to_string()) };
+			let dt = rng.range(1, 3) as i64;
+			let b = world.assemble(tip, &txs, dt, None)?;
+			tip = world.add_block(tip, b, 1, txs, format!("reorg-branch {}", note))?;
+		}
+		if world.blocks[tip].total_difficulty > world.blocks[tip_a].total_difficulty {
+			break;
+		}
+		target += 10;
+	}
+	if world.blocks[tip].total_difficulty <= world.blocks[tip_a].total_difficulty {
+		return Ok(None);
+	}
+	// the archive state of the heavier branch has to fit AutomatedTesting's frame limit as well
+	let ah = world.blocks[tip].height - 20;
+	let unspent = world.path_to(tip).iter().find(|i| world.blocks[**i].height == ah).map(|i| world.blocks[*i].ledger.len()).unwrap_or(0);
+	if unspent * 700 + 2_000 > 60_000 {
+		return Ok(None);
+	}
+	Ok(Some((tip_a, tip)))
+}
+
 /// The tip the serving node stops at in a state-sync run: a multiple of 10 (see `SyncCfg::serve_height`),
 /// and for PIBD runs low enough that the range proof segment of the archive state fits
 /// AutomatedTesting's frame limit (62 KB; a limit of the test parameters, mainnet's is 10.8 MB).
@@ -815,7 +988,31 @@ pub fn debug_run(seed: u64, mode: &str) {
 		fault_ticks: if mode.contains("faulty") { 150 } else { 0 },
 		serve_height: if mode.contains("body") { 0 } else { state_sync_height(&world, !mode.contains("zip")) },
 		byz_redundant: mode.contains("byz"),
+		serve_tip: None,
+		alt_tip: None,
+		alt_mode: if mode.contains("announce") { 1 } else { 0 },
 	};
+	let mut cfg = cfg;
+	if mode.contains("grow") {
+		if let Some((a, b)) = grow_tips(&world, cfg.serve_height) {
+			eprintln!("growing chain: first tip h{}, later tip h{}", world.blocks[a].height, world.blocks[b].height);
+			cfg.serve_tip = Some(a);
+			cfg.serve_height = 0;
+			cfg.alt_tip = Some(b);
+		}
+	}
+	if mode.contains("reorg") {
+		let mut rr = SimRng::new(seed).fork("reorg-branch");
+		match add_reorg_branch(&mut world, cfg.serve_height, &mut rr) {
+			Ok(Some((a, b))) => {
+				eprintln!("reorg branch: first tip #{} h{} td {}, heavier tip #{} h{} td {}", a, world.blocks[a].height, world.blocks[a].total_difficulty, b, world.blocks[b].height, world.blocks[b].total_difficulty);
+				cfg.serve_tip = Some(a);
+				cfg.serve_height = 0;
+				cfg.alt_tip = Some(b);
+			}
+			other => eprintln!("no reorg branch: {:?}", other),
+		}
+	}
 	let t1 = std::time::Instant::now();
 	let out = sync_loop_run(&world, seed ^ 0x55, "syncdbg", &cfg);
 	eprintln!("run took {:?}, ticks {}, simulated {:.1} s", t1.elapsed(), out.ticks, out.sim_time_s);
@@ -836,7 +1033,8 @@ pub fn debug_run(seed: u64, mode: &str) {
 
 fn cfg_json(cfg: &SyncCfg) -> Value {
 	serde_json::json!({"prop": cfg.prop, "pre": cfg.pre, "pibd_peer": cfg.pibd_peer, "faulty": cfg.faulty, "restarts": cfg.restarts,
-		"compact_server": cfg.compact_server, "fault_ticks": cfg.fault_ticks, "serve_height": cfg.serve_height, "byz_redundant": cfg.byz_redundant})
+		"compact_server": cfg.compact_server, "fault_ticks": cfg.fault_ticks, "serve_height": cfg.serve_height, "byz_redundant": cfg.byz_redundant,
+		"serve_tip": cfg.serve_tip, "alt_tip": cfg.alt_tip, "alt_mode": cfg.alt_mode})
 }
 
 fn cfg_from(v: &Value) -> SyncCfg {
@@ -850,6 +1048,9 @@ fn cfg_from(v: &Value) -> SyncCfg {
 		fault_ticks: v["fault_ticks"].as_u64().unwrap_or(0),
 		serve_height: v["serve_height"].as_u64().unwrap_or(0),
 		byz_redundant: v["byz_redundant"].as_bool().unwrap_or(false),
+		serve_tip: v["serve_tip"].as_u64().map(|n| n as usize),
+		alt_tip: v["alt_tip"].as_u64().map(|n| n as usize),
+		alt_mode: v["alt_mode"].as_u64().unwrap_or(0) as u32,
 	}
 }
 
@@ -881,7 +1082,7 @@ pub fn fold(res: &mut crate::sim::CaseResult, out: SyncOutcome, cfg: &SyncCfg, r
 /// C16: the sync loop against the world of a pibdsim case (state sync through the real StateSync:
 /// PIBD with its request tracking, timeouts and peer exclusion, or - when the peer does not advertise
 /// PIBD - the archive after the loop's 660 s fall-back; then body sync to the tip).
-pub fn runs_for_c16(world: &World, res: &mut crate::sim::CaseResult, seed: u64, case: u64, long: bool, quiet: bool, thorough: bool) {
+pub fn runs_for_c16(world: &mut World, res: &mut crate::sim::CaseResult, seed: u64, case: u64, long: bool, quiet: bool, thorough: bool) {
 	let rng = SimRng::new(seed);
 	let world_replay = serde_json::json!({"kind": "pibd", "case_seed": seed, "long": long, "fat": false, "quiet": quiet});
 	// (pibd peer?, faulty?, restarts)
@@ -908,11 +1109,51 @@ pub fn runs_for_c16(world: &World, res: &mut crate::sim::CaseResult, seed: u64, 
 			fault_ticks: if faulty { rr.range(60, 220) } else { 0 },
 			serve_height: state_sync_height(world, pibd),
 			byz_redundant: byz,
+			serve_tip: None,
+			alt_tip: None,
+			alt_mode: 0,
 		};
 		let rs = rr.next_u64();
 		let out = sync_loop_run(world, rs, &format!("sync16-c{}r{}", case, i), &cfg);
 		if fold(res, out, &cfg, rs, world_replay.clone()) {
-			break;
+			return;
+		}
+	}
+	// last run on a small world: the archive header moves under a half assembled state. Either the
+	// serving node reorganises onto a heavier branch that leaves its chain below the archive header
+	// (this grows the world, hence last), or its chain simply grows past the next archive interval;
+	// the receiver's header chain follows after a restart, or through header announcements.
+	if !long {
+		let mut rr = rng.fork("reorg-branch");
+		let sh = state_sync_height(world, true);
+		let reorg = case % 4 < 2;
+		let tips = if reorg { add_reorg_branch(world, sh, &mut rr) } else { Ok(grow_tips(world, sh)) };
+		match tips {
+			Ok(Some((tip_a, tip_b))) => {
+				let faulty = (case / 4) % 2 == 1;
+				let cfg = SyncCfg {
+					prop: "C16".into(),
+					pre: vec![],
+					pibd_peer: true,
+					faulty,
+					restarts: 0,
+					compact_server: false,
+					fault_ticks: if faulty { rr.range(40, 120) } else { 0 },
+					serve_height: 0,
+					byz_redundant: false,
+					serve_tip: Some(tip_a),
+					alt_tip: Some(tip_b),
+					alt_mode: (case % 2) as u32,
+				};
+				let rs = rr.next_u64();
+				let mut wr = world_replay.clone();
+				wr["reorg_branch"] = serde_json::json!(reorg);
+				res.probe(if reorg { "archive_header_moved_runs_reorg" } else { "archive_header_moved_runs_growth" });
+				let out = sync_loop_run(world, rs, &format!("sync16-c{}moved", case), &cfg);
+				fold(res, out, &cfg, rs, wr);
+			}
+			Ok(None) => res.probe("archive_header_moved_run_not_built"),
+			Err(e) => res.harness_error = Some(format!("reorg branch: {}", e)),
 		}
 	}
 }
@@ -973,6 +1214,9 @@ pub fn case_c03(tier: &str, seed: u64, case: u64) -> crate::sim::CaseResult {
 			fault_ticks: if faulty { rr.range(40, 160) } else { 0 },
 			serve_height: if body_only { 0 } else { state_sync_height(&world, pibd) },
 			byz_redundant: false,
+			serve_tip: None,
+			alt_tip: None,
+			alt_mode: 0,
 		};
 		if !body_only && cfg.serve_height < 30 {
 			// too short for a state sync (the archive header would be genesis)
@@ -998,6 +1242,11 @@ pub fn replay(rp: &Value) -> Result<Option<Violation>, String> {
 		_ => crate::checks::build_world_with(w["property"].as_str().unwrap_or("C03"), w["tier"].as_str().unwrap_or("quick"), seed, crate::netsim::net_world_tweak)?,
 	};
 	let cfg = cfg_from(&rp["cfg"]);
+	if w["reorg_branch"].as_bool().unwrap_or(false) {
+		let mut rr = SimRng::new(seed).fork("reorg-branch");
+		let sh = state_sync_height(&world, true);
+		add_reorg_branch(&mut world, sh, &mut rr)?;
+	}
 	let rs = rp["run_seed"].as_u64().ok_or("run_seed")?;
 	let out = sync_loop_run(&world, rs, "sync-replay", &cfg);
 	world.cleanup();
